@@ -350,6 +350,7 @@ type event struct {
 }
 
 var events []event
+var probeEvents []event // used by the probe only: set every plain field to a new value
 
 func defEvents() {
 	add := func(kind byte, f, v, src string) {
@@ -374,6 +375,11 @@ func defEvents() {
 	add('c', "", "", "return r.Copy()")
 	add('k', "", "", "return r.Copy()")
 	add('o', "", "", "r.Set_readonly()")
+	for _, f := range plainFields {
+		src := fmt.Sprintf(`r.%s = "7"`, f)
+		probeEvents = append(probeEvents, event{name: src, src: src, kind: 's', f: f, v: "7",
+			fn: compile.Constant("function (r) { " + src + " }")})
+	}
 	for i := range events {
 		events[i].fn = compile.Constant("function (r) { " + events[i].src + " }")
 		switch events[i].kind {
@@ -703,7 +709,9 @@ func probe(x *impl, r *core.SuRecord, mr *mrec, which string, order []string) *f
 		}
 		for _, fld := range order {
 			want := mr.sem(fld)
-			if got := valStr(r.Get(x.th, core.SuStr(fld))); got != want && f == nil {
+			got := valStr(r.Get(x.th, core.SuStr(fld)))
+			mr.get(fld) // the model follows the reads (what is cached now)
+			if got != want && f == nil {
 				f = fail(class, "probe: %s: field %s = %q but the current field values give %q (fields: %s)",
 					which, fld, got, want, mr.plain())
 			}
@@ -724,7 +732,7 @@ var thPool = sync.Pool{New: func() any { return &core.Thread{} }}
 
 // runPath replays path on a fresh record and model, judging every step, then
 // probes. Returns the model after the last event (before the probe).
-func runPath(root int, activeOb bool, path []int, probeOrder int) (m *model, f *failure) {
+func runPath(root int, activeOb bool, path []int, probeOrder int) (key string, f *failure) {
 	x, m := newImpl(thPool.Get().(*core.Thread), root, activeOb)
 	defer func() { thPool.Put(x.th) }()
 	defer func() {
@@ -735,32 +743,47 @@ func runPath(root int, activeOb bool, path []int, probeOrder int) (m *model, f *
 	for i, e := range path {
 		if f := step(x, m, &events[e]); f != nil {
 			f.msg = fmt.Sprintf("step %d: %s", i+1, f.msg)
-			return m, f
+			return "", f
 		}
 	}
 	if m.rec.staleCached() || m.cp != nil && m.cp.staleCached() {
 		m.tainted = true
 	}
-	key := m.key()
-	// the probe works on clones of the model records (reading changes the
-	// bookkeeping of what is cached, not what the values must be)
-	pr := func(mr *mrec) *mrec {
-		c := mr.clone()
-		c.readonly = mr.readonly
-		return c
-	}
-	if f := probe(x, x.rec, pr(m.rec), "the record", probeOrders[probeOrder]); f != nil {
-		return m, f
+	key = m.key() // the state reached by the path; the probe below goes on from it
+	if f := probe(x, x.rec, m.rec, "the record", probeOrders[probeOrder]); f != nil {
+		return key, f
 	}
 	if x.cp != nil {
-		if f := probe(x, x.cp, pr(m.cp), "the copy", probeOrders[probeOrder]); f != nil {
-			return m, f
+		if f := probe(x, x.cp, m.cp, "the copy", probeOrders[probeOrder]); f != nil {
+			return key, f
 		}
 	}
-	if m.key() != key {
-		lib.Infra("probe changed the model")
+	// Second part of the probe: hidden bookkeeping (invalid marks, tracked
+	// dependencies) is exercised by changing every plain field of the current
+	// record to a new value - notifications and all values are judged again.
+	if !m.cur().readonly {
+		for i := range probeEvents {
+			if f := step(x, m, &probeEvents[i]); f != nil {
+				f.msg = "probe: " + f.msg
+				return key, f
+			}
+			r, _ := x.cur()
+			mr := m.cur()
+			for _, fld := range ruleFields {
+				want := mr.sem(fld)
+				var got string
+				if e := lib.Try(func() { got = valStr(r.Get(x.th, core.SuStr(fld))) }); e != nil {
+					return key, fail("", "probe: read of %s panicked: %s", fld, lib.PanicText(e))
+				}
+				mr.get(fld)
+				if got != want {
+					return key, fail("", "probe: after %s field %s = %q but the current field values give %q (fields: %s)",
+						probeEvents[i].name, fld, got, want, mr.plain())
+				}
+			}
+		}
 	}
-	return m, nil
+	return key, nil
 }
 
 // ---------------------------------------------------------------- BFS
@@ -784,7 +807,7 @@ var (
 
 func run(c *lib.Ctx) {
 	setup()
-	debug.SetGCPercent(800) // many small short-lived objects, small live heap
+	debug.SetGCPercent(200) // many small short-lived objects, small live heap
 	depth := lib.Pick(c, 5, 7)
 	c.Set("events", len(events))
 	c.Set("max_depth", depth)
@@ -828,7 +851,7 @@ func bfs(c *lib.Ctx, root int, activeOb bool, depth int) int {
 					continue
 				}
 				path := append(append(make([]int, 0, len(base)+1), base...), e)
-				m, f := runPath(root, activeOb, path, (i+e)%len(probeOrders))
+				key, f := runPath(root, activeOb, path, (i+e)%len(probeOrders))
 				c.Eval(1)
 				c.Transition(1)
 				c.TraceValidated(1)
@@ -847,7 +870,7 @@ func bfs(c *lib.Ctx, root int, activeOb bool, depth int) int {
 					}
 					continue // a failing path is not explored further
 				}
-				out = append(out, succ{m.key(), path})
+				out = append(out, succ{key, path})
 			}
 			results[i] = out
 		})
